@@ -11,6 +11,7 @@ from vt.util import V, EPS, case_rng, rng_for
 
 PROPERTY = "C05"
 TITLE = "Frequency filtering"
+TECHNIQUE = ('runtime monitoring: filter_frequencies executions with recorded response calls decided by an independent zero-padded FFT reference and algebraic relations between executions (linearity, homogeneity, identity, translation, re-used response objects)')
 ANCHORS = ["pyrex.signals:Signal.filter_frequencies", "pyrex.signals:Signal._get_filter_response"]
 RULE = ("one case = (N from {2,3,4,5,8,17,64,255,1024,4095}, dt log-uniform 1e-10..1 s, grid offset 0/1/1e3/1e6 windows, "
         "values impulse/step/chirp/noise, response kind: complex low-pass, brick-wall band, pure delay of m samples "
